@@ -203,7 +203,7 @@ func (e *Engine) VerifyFunc(key string) (res *FnResult) {
 					}
 				}
 			}
-			if keepPost || strings.HasPrefix(o.Class, "safe:") || o.Class == "inv-entry" || o.Class == "inv-pres" || o.Class == "assert" || (o.Class == "vacuity" && strings.HasSuffix(o.Name, "requires-sat")) {
+			if keepPost || strings.HasPrefix(o.Class, "safe:") || o.Class == "inv-entry" || o.Class == "inv-pres" || o.Class == "variant" || o.Class == "assert" || (o.Class == "vacuity" && strings.HasSuffix(o.Name, "requires-sat")) {
 				res.Obls = append(res.Obls, o)
 			}
 		}
